@@ -35,6 +35,27 @@ def okb(case, io, mo):
     if s in (3, 4):
         sm = b2frac(par)
         if sm is None or not (0 <= sm <= 1): return True, ""
+    # moving average: the exact time-weighted average over the window (each sample covers the interval ending at its time stamp,
+    # the oldest one the interval from the window's start), in exact rationals with a forward rounding bound
+    if s in (5, 6):
+        q = []
+        for j, (e, o) in enumerate(zip(evs, outs)):
+            u, g, same, _ = o
+            if e[0] == 1: q = []; continue
+            if e[0] == 0: continue
+            x = b2frac(e[2])
+            if x is None: break
+            q.append((e[1], x))
+            while q and q[0][0] <= e[1] - par: q.pop(0)
+            if not q: break
+            starts = [e[1] - par] + [t for t, _ in q[:-1]]
+            ws = [t - st for (t, _), st in zip(q, starts)]
+            want = sum(v * w for (_, v), w in zip(q, ws)) / par
+            mag = sum(abs(v) * abs(w) for (_, v), w in zip(q, ws)) / par
+            if g[0] == "S":
+                got = b2frac(g[2][0])
+                if got is not None and abs(got - want) > (len(q) + 6) * E2 * mag + Fraction(1, 2**120):
+                    return False, "%s: output %s after event %d is not the time-weighted average %s of the %d samples in the window" % (STREAMS[s], float(got), j, float(want), len(q))
     # convexity: output between the smallest and largest contributing sample since the last reset
     contrib = []
     first = True
